@@ -180,6 +180,9 @@ func (lu *LU) isZero() bool {
 // expressions, using LogDet will be more numerically stable.
 // Det will panic if the receiver does not contain a factorization.
 func (lu *LU) Det() float64 {
+	if !lu.isValid() {
+		panic(badLU)
+	}
 	if !lu.ok {
 		return 0
 	}
